@@ -189,8 +189,7 @@ func init() {
 	})
 	R("time.Sleep", func(it *Interp, _ *ssa.Function, a []Value) Value {
 		if ok, _ := it.M.extra[clockAllowKey].(bool); !ok {
-			it.nondetSource("time.Sleep")
-			return nil
+			return nil // sleeping yields no value: without the symbolic clock it is a no-op (daemon retry loops)
 		}
 		it.clockSleep(a[0].(*smt.Term))
 		return nil
